@@ -59,10 +59,11 @@ def level(named, tail=NOTAIL, version=False, vtag="0"):
 
 
 def alpha(words=("1", "x"), spells=("sep", "eq"), extras=("dd", "help", "unk"), maxlen=3,
-          envvals=("UNSET",), clusters=False, eqvals=None):
+          envvals=("UNSET",), clusters=False, eqvals=None, clusters3=False):
     return {"words": list(words), "spells": list(spells), "extras": list(extras),
             "maxlen": maxlen, "envvals": list(envvals), "clusters": clusters,
-            "eqvals": list(eqvals if eqvals is not None else words)}
+            "eqvals": list(eqvals if eqvals is not None else words), "clusters3": clusters3,
+            "noglue": [v for v in (eqvals if eqvals is not None else words) if v == "" or v.startswith("=")] + [""]}
 
 
 def mkdef(id, lvl, **alpha_kw):
@@ -483,3 +484,36 @@ def galpha_trim(d, budget):
     while est() > budget and a["maxlen"] > 2:
         a["maxlen"] -= 1
     return d
+
+
+# ---------------------------------------------------------------- spellings and byte-exact values (C02)
+HOSTILE = ["", "=", "a=b", "v%20w", "%20", "-x", "--", "%C3%B1", "%FF", "f%FF=", "1", "z" * 300]
+NAMESETS = [(["-n"], []), (["-%C3%B1"], []), ([], ["--name"]), ([], ["--n%C3%A4m%C3%A9"]),
+            (["-n"], ["--name"]), (["-%C3%B1"], ["--n%C3%A4m%C3%A9"]), (["-n", "-N"], ["--name", "--alias"])]
+
+
+def spell_family(seed, n, maxlen=2, budget=9000, vals=None):
+    rnd = random.Random(seed)
+    out = []
+    vts = ["str", "os", "path", "int"]
+    arities = ["one", "opt", "many", "last"]
+    while len(out) < n:
+        i = len(out)
+        shorts, longs = NAMESETS[i % len(NAMESETS)]
+        vt = vts[(i // len(NAMESETS)) % 4] if i >= len(NAMESETS) else vts[i % 4]
+        adj = (i % 5 == 4)
+        it = leaf("a0", "arg", arities[i % 4], shorts=shorts, longs=longs, vt=vt, adj=adj)
+        ctx = i % 4
+        named = [it]
+        if ctx in (1, 3):
+            named = [sw("f1", "-v"), rf("f2", "count", "-c")] + named if i % 2 else named + [sw("f1", "-v"), sw("f2", "-c", hidden=(i % 8 == 3))]
+        tail = postail(pos("p0", "opt")) if ctx in (2, 3) else NOTAIL
+        ev = list(vals or HOSTILE)
+        if len(ev) > 7:
+            keep = ["", "=", "-x", "%FF"] + rnd.sample([v for v in ev if v not in ("", "=", "-x", "%FF")], 4)
+            ev = keep
+        d = mkdef(f"sp{seed}_{i}", level(named, tail), maxlen=maxlen, extras=(), spells=("sep", "eq", "glued"),
+                  words=("w",), eqvals=ev, clusters=(ctx in (1, 3)), clusters3=(ctx == 1 and i % 3 == 0))
+        trim_to_budget(d, budget)
+        out.append(d)
+    return out
